@@ -74,6 +74,9 @@ import (
 //	         requests meet a service without a connection) | "ping-waiting": the pushes are appended first and the harness holds the flush
 //	         until a scripted ping has failed (the watchdog closes the connection with requests waiting)
 //	close_err  Close() of a connection returns an error
+//	bulk     the node's insert services are created with MaxQueueSize = bulk (what writer/plugin passes from SYSTEM_SETTINGS.DBBulk, environment
+//	         BULK_MAX_SIZE_BYTES; shipped default 0 = no size-triggered flush): a Request that brings the accounted size of the waiting rows above it
+//	         asks for the flush itself (svc.insertCancel() under svc.mtx) instead of waiting for the timer
 type Case struct {
 	ID       int    `json:"id"`
 	Class    string `json:"class"`
@@ -86,6 +89,7 @@ type Case struct {
 	Ping     []int  `json:"ping"`
 	Hold     string `json:"hold,omitempty"`
 	CloseErr bool   `json:"close_err,omitempty"`
+	Bulk     int64  `json:"bulk,omitempty"`
 	Attempts int    `json:"attempts"` // RetryAttempts the harness ran with (RetryTimeoutS = 1, as shipped)
 	Obs      *Obs   `json:"obs,omitempty"`
 }
@@ -106,6 +110,9 @@ type Obs struct {
 	RowsSent       int `json:"rows_sent"`         // rows of the main table in all pushes
 	RowsStored     int `json:"rows_stored"`       // rows of the main table in accepted INSERTs
 	Goroutines     int `json:"goroutines_left"`   // --serial only: goroutines in repository code beyond the baseline, -1 = not measured
+	OverBulk       int `json:"over_bulk"`         // Request calls whose own accounted size (GetSize) was above the node's bulk size
+	MaxReqSize     int64 `json:"max_req_size"`    // largest accounted size of one Request
+	FlushStuck     int `json:"flush_stuck"`       // PlanFlush calls of the harness that had not returned when the case ended (service mutex never released)
 	Stacks   []string `json:"stacks,omitempty"`
 	WarmFail bool     `json:"warm_fail,omitempty"`
 }
@@ -136,6 +143,9 @@ type node struct {
 	pending  map[string]*int64 // per kind: promises issued - completed
 	issued   int64
 	complete int64
+	bulk     int64
+	overBulk, maxReq int64
+	flushing map[string]*int32 // per kind: a PlanFlush of the harness is under way
 }
 
 func (b *backend) waiting() bool { return atomic.LoadInt64(b.nd.pending[b.kind]) > 0 }
@@ -270,6 +280,16 @@ func (t tracked) Request(req helpers.SizeGetter, insertMode int) *promise.Promis
 	pend := t.nd.pending[t.kind]
 	atomic.AddInt64(pend, 1)
 	atomic.AddInt64(&t.nd.issued, 1)
+	sz := req.GetSize()
+	if t.nd.bulk > 0 && sz > t.nd.bulk {
+		atomic.AddInt64(&t.nd.overBulk, 1)
+	}
+	for {
+		m := atomic.LoadInt64(&t.nd.maxReq)
+		if sz <= m || atomic.CompareAndSwapInt64(&t.nd.maxReq, m, sz) {
+			break
+		}
+	}
 	p := t.IInsertServiceV2.Request(req, insertMode)
 	go func() {
 		p.Get()
@@ -308,7 +328,8 @@ func setup(cases []*Case, attempts int) (*mux.Router, []*node) {
 	dbmap := map[string]*model.DataDatabasesMap{}
 	var nodes []*node
 	for _, c := range cases {
-		nd := &node{name: fmt.Sprintf("node%d", c.ID), be: map[string]*backend{}, svcs: map[string]service.IInsertServiceV2{}, pending: map[string]*int64{}}
+		nd := &node{name: fmt.Sprintf("node%d", c.ID), be: map[string]*backend{}, svcs: map[string]service.IInsertServiceV2{}, pending: map[string]*int64{},
+			bulk: c.Bulk, flushing: map[string]*int32{}}
 		wt := 5
 		for _, v := range append(append([]int{}, c.Do...), c.Ping...) {
 			if v == 2 {
@@ -321,7 +342,9 @@ func setup(cases []*Case, attempts int) (*mux.Router, []*node) {
 			b := &backend{kind: k, c: c, nd: nd}
 			nd.be[k] = b
 			nd.pending[k] = new(int64)
-			s := ctors[k](model.InsertServiceOpts{Session: ch_wrapper.IChClientFactory(b.dial), Node: db, Interval: time.Hour, ParallelNum: 1})
+			nd.flushing[k] = new(int32)
+			s := ctors[k](model.InsertServiceOpts{Session: ch_wrapper.IChClientFactory(b.dial), Node: db, Interval: time.Hour, ParallelNum: 1,
+				MaxQueueSize: c.Bulk})
 			s.Init()
 			go s.Run()
 			if mm, ok := s.(*service.InsertServiceV2Multimodal); ok && mm.AsyncService != nil {
@@ -440,12 +463,26 @@ func send(router *mux.Router, nd *node, w wire) chan int {
 
 // ------------------------------------------------------------------ running a case
 
+// flushPending plays the services' timer.  PlanFlush takes the service mutex: it runs on its own goroutine (one at a time per service), so a
+// service whose mutex is never released again shows as unanswered pushes + flush_stuck and cannot hang the harness
 func (nd *node) flushPending() {
 	for _, k := range kinds {
-		if atomic.LoadInt64(nd.pending[k]) > 0 {
-			nd.svcs[k].PlanFlush()
+		if atomic.LoadInt64(nd.pending[k]) > 0 && atomic.CompareAndSwapInt32(nd.flushing[k], 0, 1) {
+			go func(k string) {
+				nd.svcs[k].PlanFlush()
+				atomic.StoreInt32(nd.flushing[k], 0)
+			}(k)
 		}
 	}
+}
+
+func (nd *node) flushStuck() int {
+	time.Sleep(20 * time.Millisecond)
+	n := 0
+	for _, k := range kinds {
+		n += int(atomic.LoadInt32(nd.flushing[k]))
+	}
+	return n
 }
 
 func runCase(router *mux.Router, nd *node, c *Case, deadline time.Duration) {
@@ -467,6 +504,10 @@ func runCase(router *mux.Router, nd *node, c *Case, deadline time.Duration) {
 		}
 		if code/100 != 2 {
 			o.WarmFail = true
+			o.Status = make([]int, c.Pushes) // the warm-up push itself was not answered: nothing else is sent
+			o.Issued, o.Complete = atomic.LoadInt64(&nd.issued), atomic.LoadInt64(&nd.complete)
+			o.OverBulk, o.MaxReqSize = int(atomic.LoadInt64(&nd.overBulk)), atomic.LoadInt64(&nd.maxReq)
+			o.FlushStuck = nd.flushStuck()
 			return
 		}
 	}
@@ -542,6 +583,10 @@ func runCase(router *mux.Router, nd *node, c *Case, deadline time.Duration) {
 		time.Sleep(4 * time.Millisecond)
 	}
 	o.Issued, o.Complete = atomic.LoadInt64(&nd.issued), atomic.LoadInt64(&nd.complete)
+	o.OverBulk, o.MaxReqSize = int(atomic.LoadInt64(&nd.overBulk)), atomic.LoadInt64(&nd.maxReq)
+	if left > 0 {
+		o.FlushStuck = nd.flushStuck()
+	}
 	be.mu.Lock()
 	o.DialOK, o.DialRefused, o.RefusedWaiting, o.DoOK, o.DoFail, o.PingFail, o.PingFailWait, o.RowsStored =
 		be.dialOK, be.dialRefused, be.refusedWaiting, be.doOK, be.doFail, be.pingFail, be.pingFailWait, be.rowsStored
@@ -649,6 +694,24 @@ func gen(r *rand.Rand, id, attempts int) *Case {
 	return c
 }
 
+// genBulk: the operator configured a bulk size (BULK_MAX_SIZE_BYTES > 0); the pushes' accounted size (line lengths + 26 per sample) is above
+// it at once (bulk 1), after a few rows / pushes (bulk 150, 2000) or never (bulk 1 MiB).  Own random stream: the other classes keep their cases
+func genBulk(r *rand.Rand, id, attempts int) *Case {
+	c := &Case{ID: id, Pushes: 1 + r.Intn(3), Rows: 1 + r.Intn(60), Attempts: attempts, Dial: []int{}, Do: []int{}, Ping: []int{}}
+	c.Kind = []string{"lokijson", "prom", "pprof", "zipkin"}[r.Intn(4)]
+	c.Bulk = []int64{1, 1, 150, 2000, 1 << 20}[r.Intn(5)]
+	c.Warm = r.Intn(2) == 0
+	c.Class = "bulk-size/database-up"
+	if !c.Warm && r.Intn(3) == 0 { // the size-triggered flush meets a refused dial
+		c.Dial = rep(1, 1+r.Intn(2))
+		c.Class = "bulk-size/dial-refused"
+	}
+	if c.Warm {
+		c.Class = "warm/" + c.Class
+	}
+	return c
+}
+
 func main() {
 	deadlineMs := flag.Int("deadline-ms", 15000, "per-case deadline for the answers")
 	genOnly := flag.Bool("gen-only", false, "print the generated cases without running them")
@@ -675,6 +738,10 @@ func main() {
 		r := hx.Rand(f.Seed)
 		for i := 0; i < f.N; i++ {
 			cases = append(cases, gen(r, i, *attempts))
+		}
+		rb := hx.Rand(f.Seed + 5)
+		for i := 0; i < (f.N+2)/3; i++ {
+			cases = append(cases, genBulk(rb, f.N+i, *attempts))
 		}
 	}
 	of := os.Stdout
